@@ -126,7 +126,7 @@ def verdicts(df, src):
     return {f: {k: (None if x is None else bool(x)) for k, x in fv.items()} for f, fv in v.fields.items()}, v.passes, v.failures
 
 
-def cycle_check(chk, d, root, tag, rnd, sigbase, witness, cycles=2, df=None, origin=None):
+def cycle_check(chk, d, root, tag, rnd, sigbase, witness, cycles=2, df=None, origin=None, expect=None):
     """d: constraints dictionary.  Performs load -> write -> load(path) -> write ... and returns trace events."""
     from tdda.constraints.base import DatasetConstraints
     events = []
@@ -173,6 +173,8 @@ def cycle_check(chk, d, root, tag, rnd, sigbase, witness, cycles=2, df=None, ori
             base_verdicts = verdicts(df, json.loads(json.dumps(d)))
         except Exception as ex:
             base_verdicts = ('raised', type(ex).__name__)
+    if expect is not None:
+        base_verdicts = expect          # (what the documented meaning of the constraints says about this data)
     if origin is not None:
         # the set as it was made in memory (by discovery): ITS text is the text written, ITS verdicts are the verdicts
         try:
@@ -286,7 +288,7 @@ def run(chk):
         name = rnd.choice(FIELD_NAMES)
         fielddict = {}
         for e in fd:
-            key = e['k'] if e['k'] not in ('zzz',) else rnd.choice(['zzz', 'custom_kind', 'min_len'])
+            key = e['k'] if e['k'] not in ('zzz',) else rnd.choice(['zzz', 'custom_kind', 'min_len', 'values', 'nonnull', 'nodups', 'ok', 'minimum'])
             if e['k'] == '#c':
                 key = rnd.choice(['#c', '# a comment', '#min'])
             fielddict[key] = concretize(e['k'], e['v'], rnd)
@@ -331,6 +333,21 @@ def run(chk):
         d_ = {'fields': {'x': {'type': 'real', kind: val}}}
         w = {'tid': tid, 'dict': d_, 'handwritten_awkward_float': True}
         events += cycle_check(chk, d_, root, 'a%d' % tid, rnd, None, w, cycles=2, df=df_)
+        meta[tid] = w
+        chk.coverage['replayed_cases'] += 1
+        tid += 1
+    # 2c. date bounds far from today (the sentinels people write: year 1, 999, 3000, 9999), data well inside them: the bounds are
+    #     satisfied, by every route
+    for _ in range(120 if thorough else 24):
+        lo = rnd.choice(['0001-01-01', '0999-12-31', '0001-01-01 00:00:00', '1000-01-01'])
+        hi = rnd.choice(['9999-12-31', '9999-12-31 23:59:59', '3000-01-01', '2999-12-31 23:59:59.999999'])
+        prec = rnd.choice([None, 'closed', 'open', 'fuzzy'])
+        fd_ = {'type': 'date', 'min': lo if prec is None else {'value': lo, 'precision': prec}, 'max': hi if prec is None else {'value': hi, 'precision': prec}}
+        df_ = _pd.DataFrame({'when': _pd.to_datetime(['2020-02-29 12:34:56', '1999-01-05 00:00:00', '2021-03-04 01:02:03'])})
+        d_ = {'fields': {'when': fd_}}
+        w = {'tid': tid, 'dict': d_, 'sentinel_date_bounds': True}
+        events += cycle_check(chk, d_, root, 's%d' % tid, rnd, None, w, cycles=2, df=df_,
+                              expect=({'when': {'type': True, 'min': True, 'max': True}}, 3, 0))
         meta[tid] = w
         chk.coverage['replayed_cases'] += 1
         tid += 1
